@@ -35,7 +35,9 @@ def _default_options(node, search, type_wanted):
     """
     return {
         "FunctionDef": lambda: {
-            "function_type": node if node is None else get_function_type(node),
+            "function_type": get_function_type(node)
+            if isinstance(node, FunctionDef)
+            else None,
             "function_name": search[-1] if len(search) else "set_cli_args",
         },
         "ClassDef": lambda: {
